@@ -1,6 +1,8 @@
 CONSTANTS
   N = 6
-  Sizes = {1, 2, 4}
+  Sizes = {1, 3}
+  GenMaxN = 5
+  GenMod = 12
   PackLimits <- MCLimits
   PackModes <- MCModes
 INIT MInit
